@@ -55,6 +55,7 @@ const K_ENC: W = 3;
 const K_WHIST: W = 4;
 const K_READ: W = 5;
 const K_CONV: W = 7;
+const K_ALLOC: W = 8;
 
 fn case_table(c: &mut Cur) -> Result<Vec<W>, BadCase> {
     let code = c.next()?;
@@ -522,6 +523,84 @@ fn case_conv(c: &mut Cur) -> Result<Vec<W>, BadCase> {
     Ok(out)
 }
 
+/// Counting allocator (C17): live bytes, peak of live bytes and the largest
+/// single request since the last reset.
+struct Counting;
+static LIVE: std::sync::atomic::AtomicUsize = std::sync::atomic::AtomicUsize::new(0);
+static PEAK: std::sync::atomic::AtomicUsize = std::sync::atomic::AtomicUsize::new(0);
+static LARGEST: std::sync::atomic::AtomicUsize = std::sync::atomic::AtomicUsize::new(0);
+
+fn note_alloc(size: usize) {
+    use std::sync::atomic::Ordering::Relaxed;
+    let live = LIVE.fetch_add(size, Relaxed) + size;
+    PEAK.fetch_max(live, Relaxed);
+    LARGEST.fetch_max(size, Relaxed);
+}
+
+unsafe impl std::alloc::GlobalAlloc for Counting {
+    unsafe fn alloc(&self, l: std::alloc::Layout) -> *mut u8 {
+        note_alloc(l.size());
+        std::alloc::System.alloc(l)
+    }
+    unsafe fn dealloc(&self, p: *mut u8, l: std::alloc::Layout) {
+        LIVE.fetch_sub(l.size(), std::sync::atomic::Ordering::Relaxed);
+        std::alloc::System.dealloc(p, l)
+    }
+    unsafe fn realloc(&self, p: *mut u8, l: std::alloc::Layout, new_size: usize) -> *mut u8 {
+        LIVE.fetch_sub(l.size(), std::sync::atomic::Ordering::Relaxed);
+        note_alloc(new_size);
+        std::alloc::System.realloc(p, l, new_size)
+    }
+}
+
+#[global_allocator]
+static ALLOCATOR: Counting = Counting;
+
+/// Kind 8: memory requested while reading.
+/// [has_shx; shp bytes; shx bytes (if has_shx)] -> open (with the index if given),
+/// iterate to the end keeping every item, read_nth(0), read_nth(1), then drop;
+/// result: [peak live bytes above the baseline, largest single request, 0 ok | 1 open error | 2 panic].
+fn case_alloc(c: &mut Cur) -> Result<Vec<W>, BadCase> {
+    use std::sync::atomic::Ordering::Relaxed;
+    let has_shx = c.next()? == 1;
+    let shp = read_bytes(c)?;
+    let shx = if has_shx { read_bytes(c)? } else { vec![] };
+    if !c.at_end() {
+        return Err(BadCase);
+    }
+    let cap = shp.len() / 12 + shx.len() / 8 + 2;
+    let src = Source::new(shp);
+    let idx = Source::new(shx);
+    let base = LIVE.load(Relaxed);
+    PEAK.store(base, Relaxed);
+    LARGEST.store(0, Relaxed);
+    let r = std::panic::catch_unwind(std::panic::AssertUnwindSafe(move || -> W {
+        let reader = if has_shx { ShapeReader::with_shx(src, idx) } else { ShapeReader::new(src) };
+        match reader {
+            Err(_) => 1,
+            Ok(mut reader) => {
+                let mut kept = vec![];
+                {
+                    let mut it = reader.iter_shapes();
+                    while kept.len() < cap {
+                        match it.next() {
+                            None => break,
+                            Some(x) => kept.push(x),
+                        }
+                    }
+                }
+                let a = reader.read_nth_shape(0);
+                let b = reader.read_nth_shape(1);
+                drop((a, b, kept));
+                0
+            }
+        }
+    }));
+    let peak = PEAK.load(Relaxed).saturating_sub(base);
+    let largest = LARGEST.load(Relaxed);
+    Ok(vec![peak as W, largest as W, r.unwrap_or(2)])
+}
+
 fn run_case(v: &[W]) -> Vec<W> {
     let mut c = Cur::new(v);
     let r = match c.next() {
@@ -531,6 +610,7 @@ fn run_case(v: &[W]) -> Vec<W> {
         Ok(K_WHIST) => case_whist(&mut c),
         Ok(K_READ) => case_read(&mut c),
         Ok(K_CONV) => case_conv(&mut c),
+        Ok(K_ALLOC) => case_alloc(&mut c),
         _ => Err(BadCase),
     };
     match r {
